@@ -36,7 +36,11 @@ func Ranges(src search.NumericValuesSource) *RangeAggregation {
 }
 
 func (a *RangeAggregation) Fields() []string {
-	return a.src.Fields()
+	rv := a.src.Fields()
+	for _, agg := range a.aggregations {
+		rv = append(rv, agg.Fields()...)
+	}
+	return rv
 }
 
 func (a *RangeAggregation) AddRange(rang *NumericRange) *RangeAggregation {
